@@ -1,7 +1,7 @@
 import json, os
 
 SPEC = {
-    "lean_modules": ["SemaModel.C10.Props"],
+    "lean_modules": ["SemaModel.C10.Props", "SemaModel.C10.Tie"],
     "lean_dirs": ["SemaModel/C10", "SemaModel/C03"],
     "harness": "c10",
     "harness_args": {"quick": ["-n", 1200, "-len", 14], "thorough": ["-n", 9000, "-len", 18]},
@@ -14,6 +14,8 @@ SPEC = {
         "Sema.C10.C10_stream_complete", "Sema.C10.C10_stream_live", "Sema.C10.C10_stream_vectors",
         "Sema.C10.C10_shard_step", "Sema.C10.C10_shard_history_from", "Sema.C10.C10_shard_history",
         "Sema.C10.C10_withheld_change_witness",
+        # tie theorems (SemaModel/C10/Tie.lean): changeOf = the getOperation generated from shard/index/utils.go + Dispatch's tests + preProcessVamana
+        "Sema.C10.C10_tie_changeOf", "Sema.C10.C10_tie_qv_error", "Sema.C10.C10_tie_changeOf_eq",
     ],
     "trusted_base": [
         "SemaModel/C10/Model.lean + SemaModel/C03/Model.lean: hand-written model of insertUpdateDelete / insertSinglePoint / robustPrune / removeInboundEdges / EdgeScan / pruneDeleteNeighbour / greedySearch / DistSet; tied to the code by the correspondence above, not by translation",
